@@ -360,6 +360,7 @@ class MapperInfo:
                     table=child_tab.name, fk=rc.name,
                     pk=[c.name for c in child_tab.primary_key.columns],
                     member_base=r.mapper.base_mapper.class_.__name__,
+                    save_update=bool(r.cascade.save_update),
                 )))
             else:
                 (l, sl), = r.synchronize_pairs
@@ -368,6 +369,7 @@ class MapperInfo:
                     parent_key=m.get_property_by_column(l).key,
                     table=r.secondary.name, fk=sl.name, pk=[sr.name],
                     member_base=r.mapper.base_mapper.class_.__name__,
+                    save_update=bool(r.cascade.save_update),
                 )))
 
 
@@ -409,6 +411,8 @@ class Rig:
         self.objs = []      # slot -> object (strong refs for the whole case)
         self._slot = {}     # id(obj) -> slot
         self.sp = []        # stack of nested SessionTransaction objects
+        self.let_go = set()    # slots the history itself expunged or removed from a collection
+                               # (a pending delete-orphan member is expunged on removal, by design)
         self.created = set()   # id(obj) of objects made by the history (not loaded from rows)
         self.idents_seen = {}  # id(obj) -> identities the object has ever been seen with
         self.zombies = set()  # id(obj): still 'deleted'+attached after Session.close() (C33 finding)
@@ -749,6 +753,14 @@ def relation(rig, snap, reader, counters=None):
                 xe = snap[xid]
                 if xe["kind"] == "persistent":
                     Mp.add(xe["ident"])
+                elif xe["kind"] == "transient" and ci["save_update"] and xe["slot"] not in rig.let_go:
+                    # the parent is persistent, the relationship cascades save-update, the
+                    # history never expunged this member -- yet it is outside the session and
+                    # the flush left it out (SAWarning "not in session ... will not proceed")
+                    findings.append(Finding(
+                        "collection-member-dropped-from-session-not-inserted",
+                        f"{e['cls']}{e['ident']}.{key} lists a {xe['cls']} (slot {xe['slot']}) that the session silently dropped; no row was written for it",
+                        {"slot": e["slot"], "attr": key, "member_slot": xe["slot"]}))
                 elif xe["ident"] is not None:
                     Mother.add(xe["ident"])
                     bump("collection_members_filtered")   # S1 / S5
@@ -1012,6 +1024,7 @@ class Interp:
         x = self.obj(mslot)
         self.need(x in coll and self.usable(x))
         coll.remove(x)
+        self.rig.let_go.add(mslot)
 
     def op_repl(self, slot, rel, mslots):
         o, coll = self._coll(slot, rel)
@@ -1029,12 +1042,17 @@ class Interp:
         for x in list(coll):
             if x not in xs:
                 self.need(self.usable(x))
+        for x in list(coll):
+            if x not in xs:
+                self.rig.let_go.add(self.rig.track(x))
         setattr(o, rel, set(xs) if isinstance(coll, set) else xs)
 
     def op_clr(self, slot, rel):
         o, coll = self._coll(slot, rel)
         for x in list(coll):
             self.need(self.usable(x))
+        for x in list(coll):
+            self.rig.let_go.add(self.rig.track(x))
         if isinstance(coll, set):
             coll.clear()
         else:
@@ -1044,6 +1062,7 @@ class Interp:
         o, coll = self._coll(slot, rel)
         self.need(len(coll) > 0 and not isinstance(coll, set))
         self.need(self.usable(coll[-1]))
+        self.rig.let_go.add(self.rig.track(coll[-1]))
         coll.pop()
 
     # -- delete / expunge / merge --------------------------------------------
@@ -1143,6 +1162,7 @@ class Interp:
         # key switch / update of an expunged object is forgotten the same way)
         self.need(not self.rig.dml_since(self.txn_mark) and not self.s.dirty)
         self.s.expunge(o)
+        self.rig.let_go.add(slot)
 
     def op_readd(self, slot):
         import sqlalchemy as sa
@@ -1153,10 +1173,24 @@ class Interp:
         self.need(st.key not in self.s.identity_map)
         mi = self.zoo.info(st.mapper)
         identd = dict(zip(mi.pk_keys, st.key[1]))
+        rowvals = {}
         for t in mi.tables:
             w = " AND ".join(f"{cn} = ?" for cn, _ in mi.table_pk_keys[t.name])
-            _, rows = self.rig.read_txn(f"SELECT 1 FROM {t.name} WHERE {w}", tuple(identd[k] for _, k in mi.table_pk_keys[t.name]))
+            names, rows = self.rig.read_txn(f"SELECT * FROM {t.name} WHERE {w}", tuple(identd[k] for _, k in mi.table_pk_keys[t.name]))
             self.need(bool(rows))
+            for n, v in zip(names, rows[0]):
+                rowvals[(t.name, n)] = v
+        # S5: a detached object keeps whatever it held when it left the session (close()
+        # in mid-transaction does not expire it); only objects whose loaded column values
+        # are still current are re-attached, as an application would have to ensure
+        for key, cols in mi.col_attrs:
+            if key in st.dict:
+                for tn, cn in cols:
+                    self.need(rowvals[(tn, cn)] == st.dict[key])
+        for key, _ in mi.m2o:
+            self.need(key not in st.dict)
+        for key, _, _ in mi.colls:
+            self.need(key not in st.dict)
         self.s.add(o)
 
     def op_merge(self, slot, scalars, coll):
@@ -1200,6 +1234,8 @@ class Interp:
             # members that would leave the collection must be usable
             for x in list(getattr(cur, rel)):
                 self.need(self.usable(x) or sa.inspect(x).session is not self.s)
+            for x in list(getattr(cur, rel)):
+                self.rig.let_go.add(self.rig.track(x))
             setattr(copy, rel, set(xs) if self.zoo.knobs["m2m_set"] and rel in ("rights", "lefts") else xs)
         merged = self.s.merge(copy)
         self.rig.track(merged)
